@@ -182,11 +182,11 @@ def r4(ctx):
 
 def check(ctx):
     ctx.explanation = (
-        "The line classification cascade of _FileIterator._custom_iter is walked in order for one representative of every line class "
-        "(order-sensitive decision table: '##x'.startswith('#') is true); the '##' strip is computed from the prefix length; the alias "
-        "rule follows the directive list from the iterator through create_db (captured by reference before iteration) to _finalize and "
-        "forbids re-binding the attribute in any iterator method; persistence and read-back are parsed SQL plus def-use. Does not decide "
-        "behaviour over all interleavings of concrete files (follows from the table and the alias rule).")
+        "One pass of _FileIterator._custom_iter is evaluated abstractly over a stream of representative lines: one run per class of line "
+        "followed by a sentinel gives the classification table; directives, their order and the '##' strip are read off the directive list; "
+        "the list's object identity is followed from iteration (cleared and refilled in place) through create_db to the importer; _finalize is "
+        "evaluated for a three-directive list; read-back is parsed SQL plus provenance. Does not decide behaviour over all interleavings of "
+        "concrete files (follows from the table and the identity rule).")
     r1(ctx)
     r2(ctx)
     r3(ctx)
